@@ -563,6 +563,7 @@ INV_TEXT = """INV DEFINITIONS AUTOMATIC TAGS ::= BEGIN
   N ::= NULL
   Z ::= SEQUENCE { a OCTET STRING, b BOOLEAN }
   BF ::= BIT STRING (SIZE(16))
+  BF256 ::= BIT STRING (SIZE(256))
 END
 """
 
@@ -589,6 +590,7 @@ def inv_module_cases():
         ("N", T("NULL")),
         ("Z", T("SEQUENCE", comps=[{"id": "a", "type": T("OCTET STRING")}, {"id": "b", "type": T("BOOLEAN")}])),
         ("BF", T("BIT STRING", size=genmod.cons(16, 16))),
+        ("BF256", T("BIT STRING", size=genmod.cons(256, 256))),     # short values are zero-padded by the OER encoder in 16-octet chunks
     ]
     m = {"name": "INV", "tagdefault": "AUTOMATIC", "text": INV_TEXT, "types": types}
     allsyn = set(SYNTAXES)
@@ -637,6 +639,9 @@ def inv_module_cases():
     add("BF", "(bs a5c3 0)", "valid", True)
     add("BF", "(bs a5 0)", "size-short-bits", must=set())                                # F78 witness shape (OER never terminates)
     add("BF", "(bs a5c3ff 0)", "size-long", must={"uper"})
+    add("BF256", "(bs " + "a5" * 32 + " 0)", "valid", True)
+    for nshort in (31, 17, 16, 15, 8, 1):      # 1, 15, 16, 17, 24, 31 octets of padding: reported size = delivered bytes whatever the encoder decides
+        add("BF256", "(bs " + "c3" * nshort + " 0)", "size-short-bits", must=set())
     return m, items
 
 
